@@ -39,6 +39,11 @@ def placements(rng, cls, n):
     return out
 
 
+# roots of other four-man material for searches that are stopped while their table is being generated
+ABORT_ROOTS = ["8/8/8/3k4/8/2r5/8/KQ6 w - - 0 1", "8/8/4k3/8/2b5/8/1R6/K7 w - - 0 1", "7k/8/8/8/3n4/8/R7/K7 b - - 0 1", "8/8/8/3k4/8/8/1Q6/KR6 w - - 0 1",
+               "6k1/8/8/8/8/1q6/8/K2Q4 b - - 0 1", "8/8/8/4k3/8/2B5/3N4/K7 w - - 0 1"]
+
+
 def job(args):
     opts, items = args      # items: (fen, expect, value[, pre]) — pre: a command sent before `position` ("ucinewgame", "setoption name Clear Hash")
     recs, hist = [], []
@@ -50,7 +55,17 @@ def job(args):
         for it in items:
             fen, expect, val = it[:3]
             pre = it[3] if len(it) > 3 else ""
-            if pre:
+            if pre.startswith("abort "):
+                # a search on other material whose table generation is cut short by `stop`: whatever it leaves behind must not be used afterwards
+                t = pre.split()
+                eng.send("position fen " + " ".join(t[2:])); eng.send("go infinite")
+                time.sleep(float(t[1]))
+                eng.send("stop")
+                try:
+                    eng.read_until(lambda l: l.startswith("bestmove"), 60)
+                except (uci.EngineDied, TimeoutError) as e:
+                    recs.append({"fen": fen, "opts": opts, "error": "interrupted search: " + str(e)[:300], "pre": pre, "history": list(hist)}); return recs
+            elif pre:
                 eng.send(pre); eng.isready()
             eng.send(f"position fen {fen}"); eng.send("go infinite")
             out, t_end, done = [], time.time() + 12.0, False
@@ -135,7 +150,10 @@ def run(ctx):
         rc, ex, _ = vlib.run_lines(vlib.driver_bin(), [f"tb13 expect {v.split()[0]} {v.split()[1] if ' ' in v else 0} {f.split()[4]}" for f, v in el])
         for (f, v), e in zip(el, ex):
             # a third of the roots follow `ucinewgame` / Clear Hash in the same process: the hosted table must be dropped or stay valid
-            items.append((f, e, v, r.choice(["", "", "", "", "ucinewgame", "setoption name Clear Hash"]) if items else ""))
+            pre = r.choice(["", "", "", "", "ucinewgame", "setoption name Clear Hash"]) if items else ""
+            if items and len(cls) == 2 and r.random() < 0.3:
+                pre = f"abort {r.choice([0.05, 0.2, 0.5, 0.9, 1.4])} {r.choice(ABORT_ROOTS)}"
+            items.append((f, e, v, pre))
             stats["positions"] += 1; stats["won"] += v.startswith("win"); stats["lost"] += v.startswith("loss"); stats["drawn"] += v == "draw"
             stats["mate_outside_50_move_window"] += (v != "draw" and e == "nomate")
         sessions.append((optsets[ci % len(optsets)], items))
